@@ -266,11 +266,12 @@ class Check(DiffCheck):
                     if not ok: return 'WRONG RESPONSE: call %d (tag %d) returned %d bytes %s which do not follow a header carrying its tag on the wire' % (who, tag_of[who], ret, f[1])
         if tail.get('blocked') == '-' and tail.get('Q') != '0':
             return 'all calls returned but ooo_get_queue_count() = %s' % tail.get('Q')
-        # benign script: all calls issued at once, no deadline, every call answered exactly once, everything
-        # delivered -> every call succeeds
+        # benign script: all calls issued at once (t = 0) and nothing delivered before t = 1, no deadline, every call
+        # answered exactly once, everything delivered -> every call succeeds
         tags = [int(x.split(',')[1]) for x in w.split(';') if x.strip().startswith('H,')]
         benign = all(c[1] == -1 and c[0] == 0 for c in calls) and 'X,' not in w and sorted(tags) == list(range(1, len(calls) + 1)) \
-            and not any(d[1] == 'E' for d in deliv) and sum(d[1] for d in deliv) >= len(wire)
+            and not any(d[1] == 'E' for d in deliv) and sum(d[1] for d in deliv) >= len(wire) \
+            and all(d[0] >= 1 for d in deliv)        # nothing arrives before every call has been issued (t = 0)
         if benign:
             for i in range(len(calls)):
                 if returned.get(i, -1) < 0: return 'benign script (all responses delivered, no deadline) but call %d did not succeed (%s)' % (i, returned.get(i, 'blocked'))
